@@ -116,12 +116,15 @@ def isIncreasing : List Rat → Bool
   | [_] => true
   | a :: b :: t => decide (a ≤ b) && isIncreasing (b :: t)
 
-/-- `Pbox.__init__`: switch when `left ≥ right` everywhere, equal lengths, both increasing -/
-def pboxInit (l r : List Rat) : Except Err (List Rat × List Rat) :=
-  let p : List Rat × List Rat := if allGe l r then (r, l) else (l, r)
-  if p.1.length ≠ p.2.length then .error .Assertion
-  else if isIncreasing p.1 && isIncreasing p.2 then .ok p
+/-- `post_init_check`: equal lengths (assert), both bounds increasing -/
+def pboxCheck (l r : List Rat) : Except Err (List Rat × List Rat) :=
+  if l.length ≠ r.length then .error .Assertion
+  else if isIncreasing l && isIncreasing r then .ok (l, r)
   else .error .Other
+
+/-- `Pbox.__init__`: `left_right_switch` (exchange when `left ≥ right` everywhere), then the checks -/
+def pboxInit (l r : List Rat) : Except Err (List Rat × List Rat) :=
+  if allGe l r then pboxCheck r l else pboxCheck l r
 
 structure Out where
   left : List Rat
@@ -178,23 +181,27 @@ def bounds (es : List (Option Entry)) : Except Err Out :=
   | some fs => boundsFin fs
   | none => .error (boundsNaN es)
 
+/-- the parameter box of a call: positional parameters, then keyword parameters
+    (`[wc_scalar_interval(b) for b in args]`, the same for `kwargs.values()`, then `to_numpy`) -/
+def boxOf (pos kw : List PSpec) : Except Err (List (Rat × Rat)) :=
+  match parseParams pos with
+  | .error e => .error e
+  | .ok ip =>
+    match parseParams kw with
+    | .error e => .error e
+    | .ok ik => toNumpy (ip ++ ik)
+
 /-- `_bound_pcdf(family, *pos, **kw)`.  `sigOK` = scipy accepts this many positional
     parameters together with these keyword names (supplied by the harness).
     Outer `none` = the table lacks a corner. -/
 def parametric (sigOK : Bool) (pos kw : List PSpec) (t : Table) : Option (Except Err Out) :=
-  match parseParams pos with
+  match boxOf pos kw with
   | .error e => some (.error e)
-  | .ok ip =>
-    match parseParams kw with
-    | .error e => some (.error e)
-    | .ok ik =>
-      match toNumpy (ip ++ ik) with
-      | .error e => some (.error e)
-      | .ok box =>
-        if !sigOK then some (.error .Type) else
-        match lookupAll t (corners box) with
-        | none => none
-        | some es => some (bounds es)
+  | .ok box =>
+    if !sigOK then some (.error .Type) else
+    match lookupAll t (corners box) with
+    | none => none
+    | some es => some (bounds es)
 
 /-! ## bespoke constructors -/
 
